@@ -47,9 +47,10 @@ var c15NSPool = []c15NS{
 }
 
 var (
-	c15KeyLocals = []string{"p0", "p1", "p2", "name", "a.b", "k:v", "p/q", "Ü"}
-	c15RefLocals = []string{"r0", "r1", "type"}
-	c15TgtLocals = []string{"e0", "e1", "e2", "t-1", "t/u", "t:v"}
+	// local names that begin like a scheme ("httpStatus", "httpd/vhost-1") are local names all the same
+	c15KeyLocals = []string{"p0", "p1", "p2", "name", "a.b", "k:v", "p/q", "Ü", "httpStatus", "http/method"}
+	c15RefLocals = []string{"r0", "r1", "type", "httpsRef"}
+	c15TgtLocals = []string{"e0", "e1", "e2", "t-1", "t/u", "t:v", "httpd", "httpd/vhost-1"}
 	c15Strings   = []string{"", "a", "x:e0", "http://ex.org/a/e0", "_", "é\"q\\", "line\nbreak\ttab", "\u0000\u001f", "0123456789012345678901234567890123456789", "null", "{\"id\":1}", "日本語 🙂"}
 	c15Numbers   = []string{"0", "1", "-1", "1.5", "42", "1e+21", "9007199254740993", "123456789", "1.0", "1E2", "-0", "0.1", "1e-7", "-2.5E-3"}
 )
